@@ -93,6 +93,15 @@ class Zone:
                 if r is not None:
                     r.pop(x, None)
 
+    def relax_upper(self, x):
+        """x may have grown: drop every upper bound on x, keep its lower bounds"""
+        r = self.row.pop(x, None)
+        if r:
+            for y in r:
+                c = self.col.get(y)
+                if c is not None:
+                    c.pop(x, None)
+
     def assign(self, x, y, c):
         """x := y + c"""
         if self.bottom:
@@ -189,13 +198,19 @@ def widen(old, new):
 
 
 LEN_FNS = ("len",)
+# documented value ranges of chrono accessors (chrono::Datelike / Timelike / Weekday)
+FOREIGN_RANGES = {"month": (1, 12), "month0": (0, 11), "day": (1, 31), "day0": (0, 30), "ordinal": (1, 366), "hour": (0, 23),
+                  "minute": (0, 59), "second": (0, 59), "number_from_monday": (1, 7), "number_from_sunday": (1, 7),
+                  "num_days_from_monday": (0, 6), "num_days_from_sunday": (0, 6)}
 DEREF_FNS = ("deref", "as_str", "as_slice", "as_ref", "borrow", "deref_mut", "as_bytes", "as_mut_slice", "as_mut_str", "as_mut")
 
 
 class Analysis:
     """Runs the fixpoint for one body; afterwards `state_at_term[bi]` is the state just before block bi's terminator."""
 
-    def __init__(self, body, program, facts, len_alias=None, max_rounds=60):
+    def __init__(self, body, program, facts, len_alias=None, max_rounds=60, engine=None, invariants=None):
+        self.engine = engine
+        self.inv = invariants or {}
         self.b = body
         self.P = program
         self.F = facts
@@ -258,11 +273,11 @@ class Analysis:
                     return f.get("ty")
         return None
 
-    def _register(self, name, base, s, pairs, unsigned):
+    def _register(self, name, base, s, pairs, unsigned, place=None):
         if name in self.info and unsigned and not self.info[name]["unsigned"] and name not in self.math_terms:
             self.info[name]["unsigned"] = True
         if name not in self.info:
-            self.info[name] = {"base": base, "s": s, "pairs": pairs, "unsigned": unsigned}
+            self.info[name] = {"base": base, "s": s, "pairs": pairs, "unsigned": unsigned, "place": place}
             self.by_base.setdefault(base, set()).add(name)
             for pr in pairs:
                 self.by_pair.setdefault(pr, set()).add(name)
@@ -314,8 +329,9 @@ class Analysis:
         if pair in self.len_alias and pair not in self.own_effects and self.len_alias[pair] not in self.own_effects:
             sib = self.len_alias[pair]
             s2 = s[: -len(pair[1])] + sib[1]
-            return self._register("len:" + s2, rp["l"], s2, {pair, sib}, True)
-        return self._register("m:" + s, rp["l"], s, pairs, unsigned)
+            pl2 = {"l": rp["l"], "p": list(place_proj(rp))[:-1] + [["f", -1, sib[1], sib[0], None]]}
+            return self._register("len:" + s2, rp["l"], s2, {pair, sib}, True, pl2)
+        return self._register("m:" + s, rp["l"], s, pairs, unsigned, rp)
 
     def container_of(self, o):
         """Place of the slice/Vec/String/str whose reference is the operand o."""
@@ -334,7 +350,17 @@ class Analysis:
                 rv = b.def_rvalue(l)
                 if rv is not None:
                     if rv["k"] in ("ref", "rawptr"):
-                        return rv["p"]
+                        pp = rv["p"]
+                        pj = place_proj(pp)
+                        # `&(*t)` with t = <Vec as Deref>::deref(&v) / as_str(..): the container is v
+                        if len(pj) == 1 and pj[0][0] == "*" and self._ndefs.get(pp["l"], 0) == 1 and not b.local_name(pp["l"]) and not (1 <= pp["l"] <= b.nargs):
+                            r2 = b.def_rvalue(pp["l"])
+                            if r2 is not None and r2["k"] == "call":
+                                q2 = (b.callee_q(r2["t"]) or "").rsplit("::", 1)[-1]
+                                if q2 in DEREF_FNS and r2["t"]["args"]:
+                                    cur = r2["t"]["args"][0]
+                                    continue
+                        return pp
                     if rv["k"] in ("use", "cast"):
                         cur = rv["o"]
                         continue
@@ -366,7 +392,7 @@ class Analysis:
         if s is None:
             return None
         pair = self._last_pair(rp)
-        return self._register("len:" + s, rp["l"], s, {pair} if pair else set(), True)
+        return self._register("len:" + s, rp["l"], s, {pair} if pair else set(), True, rp)
 
     # ------------------------------------------------------------------ pre-pass: &mut borrows
     def _prepass(self):
@@ -548,6 +574,9 @@ class Analysis:
             return None
         if k == "un":
             if rv["op"] == "PtrMetadata":
+                n = self._const_slice_len(rv["a"])
+                if n is not None:
+                    return ("lin", (ZERO, n))
                 t = self.len_term(rv["a"])
                 if t:
                     return ("lin", (t, 0))
@@ -672,6 +701,30 @@ class Analysis:
                     for fn, v in zip(rv["fields"], vals):
                         name = self._register("m:_%d.%s" % (l, fn), l, "_%d.%s" % (l, fn), set(), True)
                         self.define(z, name, v)
+            elif k == "agg" and rv.get("agg") in ("adt", "tuple") and rv.get("ops") and l not in self.untracked:
+                # integer fields of a freshly built struct / enum variant / tuple
+                adt = rv.get("adt") or "tuple"
+                is_enum = adt in ("std::option::Option", "std::result::Result", "core::option::Option", "core::result::Result") or \
+                    (self.F is not None and self.F.adts.get(adt, {}).get("adt_kind") == "enum")
+                fields = rv.get("fields") or [str(i) for i in range(len(rv["ops"]))]
+                vals = []
+                for fn, o in zip(fields, rv["ops"]):
+                    oty = self._ty_of_operand(o)
+                    vals.append((fn, self.lin(z, o, oty) if oty in WIDTH else None, oty))
+                self.havoc_base(z, l)
+                vname = rv.get("variant")
+                vidx = rv.get("vidx", 0)
+                for i, (fn, v, oty) in enumerate(vals):
+                    if v is None:
+                        continue
+                    if is_enum:
+                        sfx = "@%s.%s" % (vname, fn)
+                        pl = {"l": l, "p": [["dc", vname, vidx], ["f", i, fn, adt, vname]]}
+                    else:
+                        sfx = ".%s" % fn
+                        pl = {"l": l, "p": [["f", i, fn, adt, None]]}
+                    name = self._register("m:_%d%s" % (l, sfx), l, "_%d%s" % (l, sfx), set(), oty in UNSIGNED, pl)
+                    self.define(z, name, v)
             elif ty in WIDTH:
                 ev = self.eval_rvalue(z, rv, ty)
                 self.havoc_base(z, l)
@@ -693,13 +746,17 @@ class Analysis:
                     if ss is not None:
                         for n in list(self.by_base.get(rs["l"], ())):
                             i = self.info[n]
-                            if n.startswith("m:") and i["s"].startswith(ss + ".") and "(*" not in i["s"][len(ss):]:
+                            if n.startswith("m:") and i["s"].startswith((ss + ".", ss + "@")) and "(*" not in i["s"][len(ss):]:
                                 if z.row.get(n) or z.col.get(n):
                                     carried.append((n, i["s"][len(ss):], i["unsigned"]))
                 self.havoc_base(z, l)
                 if l not in self.untracked:
                     for n, suffix, uns in carried:
-                        name = self._register("m:_%d%s" % (l, suffix), l, "_%d%s" % (l, suffix), set(), uns)
+                        spl = self.info[n].get("place")
+                        npl = None
+                        if spl is not None and rs is not None:
+                            npl = {"l": l, "p": list(place_proj(spl))[len(place_proj(rs)):]}
+                        name = self._register("m:_%d%s" % (l, suffix), l, "_%d%s" % (l, suffix), set(), uns, npl)
                         z.assign(name, n, 0)
         else:
             tname = self.term_of_place(p)
@@ -942,7 +999,7 @@ class Analysis:
                 i = self.info[lt]
                 pf = self._register("pfx:" + i["s"], i["base"], i["s"], set(i["pairs"]), True)
                 z.assign(pf, ZERO, n)
-        elif q in ("eq", "ne") and len(args) == 2 and "option::Option" in qn:
+        elif q in ("eq", "ne") and len(args) == 2 and self._is_option_operand(args[0]):
             if q == "ne":
                 positive = not positive
             if not positive:
@@ -953,6 +1010,42 @@ class Analysis:
                     if lt:
                         self._touch(z, lt)
                         z.add(ZERO, lt, -1)
+
+    def _const_slice_len(self, o):
+        """length of a `const X: &[T] = &[..; N]` when operand o is (a copy of) that constant"""
+        import re
+        b = self.b
+        cur = o
+        for _ in range(4):
+            k = cur.get("k")
+            if k is not None:
+                cdef = k.get("cdef")
+                if not cdef or self.F is None or cdef not in self.F.heads:
+                    return None
+                cb = self.F.body(cdef)
+                for blk in cb.blocks:
+                    for st in blk["s"]:
+                        if not place_proj(st["p"]) and st["p"]["l"] == 0 and st["rv"]["k"] == "cast":
+                            q = op_place(st["rv"]["o"])
+                            if q is not None and not place_proj(q):
+                                m = re.search(r"; (\d+)\]$", cb.locals[q["l"]])
+                                if m:
+                                    return int(m.group(1))
+                return None
+            p = op_place(cur)
+            if p is None or place_proj(p):
+                return None
+            rv = self._single_def_rv(p["l"])
+            if rv is None or rv["k"] not in ("use", "cast"):
+                return None
+            cur = rv["o"]
+        return None
+
+    def _is_option_operand(self, o):
+        p = op_place(o)
+        if p is None or place_proj(p):
+            return False
+        return "option::Option<" in self.b.locals[p["l"]][:40]
 
     def _const_str_of(self, o):
         from mir import const_str
@@ -1061,9 +1154,69 @@ class Analysis:
         if last in ("min", "max", "saturating_sub", "abs_diff", "clamp") and len(t["args"]) >= 2:
             ty = self.b.locals[t["dest"]["l"]] if not place_proj(t["dest"]) else None
             args_lin = [self.lin(z, a, ty) for a in t["args"]]
+        has_mm = False
+        if args_lin and all(args_lin[:2]) and not place_proj(t["dest"]):
+            # relate the result to the arguments *before* the moved argument temporaries die
+            (x, cx), (y, cy) = args_lin[0], args_lin[1]
+            ty0 = self.b.locals[t["dest"]["l"]]
+            nm = "$mm"
+            z.forget(nm)
+            if last == "min":
+                lx, ly = z.get(ZERO, x), z.get(ZERO, y)
+                z.add(nm, x, cx)
+                z.add(nm, y, cy)
+                if lx is not None and ly is not None:
+                    z.add(ZERO, nm, -min(-lx + cx, -ly + cy))
+                has_mm = True
+            elif last == "max":
+                ux, uy = z.get(x, ZERO), z.get(y, ZERO)
+                z.add(x, nm, -cx)
+                z.add(y, nm, -cy)
+                if ux is not None and uy is not None:
+                    z.add(nm, ZERO, max(ux + cx, uy + cy))
+                has_mm = True
+            elif last == "saturating_sub" and ty0 in UNSIGNED:
+                if z.entails(ZERO, y, cy):
+                    z.add(nm, x, cx)
+                z.add(ZERO, nm, 0)
+                has_mm = True
         find_len = None
         if last in ("find", "rfind") and ("str" in q) and t["args"]:
             find_len = self.len_term(t["args"][0])
+        # `for i in a..b`: Range::into_iter is the identity, Range::next yields start <= i < end and only advances start
+        if last == "into_iter" and len(t["args"]) == 1 and not place_proj(t["dest"]):
+            ap = op_place(t["args"][0])
+            if ap is not None and not place_proj(ap) and b.locals[ap["l"]].startswith(("std::ops::Range<", "core::ops::Range<")):
+                vals = {}
+                for f in ("start", "end"):
+                    n = "m:_%d.%s" % (ap["l"], f)
+                    if n in self.info:
+                        vals[f] = n
+                dl = t["dest"]["l"]
+                self.havoc_base(z, dl)
+                for f, n in vals.items():
+                    nn = self._register("m:_%d.%s" % (dl, f), dl, "_%d.%s" % (dl, f), set(), True)
+                    z.assign(nn, n, 0)
+                self.havoc_base(z, ap["l"])
+                return
+        if last == "next" and len(t["args"]) == 1 and not place_proj(t["dest"]):
+            ap = op_place(t["args"][0])
+            if ap is not None and not place_proj(ap) and ap["l"] in self.mutborrow:
+                tgt = self._resolve(self.mutborrow[ap["l"]])
+                if not place_proj(tgt) and b.locals[tgt["l"]].startswith(("std::ops::Range<usize", "core::ops::Range<usize", "std::ops::Range<i32", "std::ops::Range<u32")) and tgt["l"] not in self.untracked:
+                    st, en = "m:_%d.start" % tgt["l"], "m:_%d.end" % tgt["l"]
+                    dl = t["dest"]["l"]
+                    self.havoc_base(z, dl)
+                    if st in self.info and en in self.info and dl not in self.untracked:
+                        uns = "usize" in b.locals[tgt["l"]] or "u32" in b.locals[tgt["l"]]
+                        pn = self._register("m:_%d@Some.0" % dl, dl, "_%d@Some.0" % dl, set(), uns,
+                                            {"l": dl, "p": [["dc", "Some", 1], ["f", 0, "0", "std::option::Option", "Some"]]})
+                        z.forget(pn)
+                        z.add(st, pn, 0)
+                        z.add(pn, en, -1)
+                        self._touch(z, pn)
+                        z.relax_upper(st)
+                    return
         # effects
         if local_callee is not None:
             for pair in self.P.effects(local_callee):
@@ -1117,23 +1270,18 @@ class Analysis:
         if ty in WIDTH:
             name = self._register("_%d" % l, l, "_%d" % l, set(), ty in UNSIGNED)
             self._touch(z, name)
+            rng = FOREIGN_RANGES.get(last) if local_callee is None and ("chrono" in q) else None
+            if rng:
+                z.add(name, ZERO, rng[1])
+                z.add(ZERO, name, -rng[0])
             if pre.get("len"):
                 self._touch(z, pre["len"])
                 z.assign(name, pre["len"], 0)
                 self._touch(z, name)
-            elif args_lin and all(args_lin[:2]):
-                (x, cx), (y, cy) = args_lin[0], args_lin[1]
-                if last == "min":
-                    z.add(name, x, cx)
-                    z.add(name, y, cy)
-                elif last == "max":
-                    z.add(x, name, -cx)
-                    z.add(y, name, -cy)
-                elif last == "saturating_sub" and ty in UNSIGNED:
-                    if z.entails(ZERO, y, cy):
-                        z.add(name, x, cx)
-                elif last == "abs_diff":
-                    pass
+            elif has_mm:
+                z.assign(name, "$mm", 0)
+                z.forget("$mm")
+                self._touch(z, name)
         elif find_len and "Option<usize>" in ty:
             name = self._register("m:_%d@Some.0" % l, l, "_%d@Some.0" % l, set(), True)
             self._touch(z, name)
@@ -1154,19 +1302,490 @@ class Analysis:
         return False
 
     # ------------------------------------------------------------------ fixpoint
-    def _run(self, max_rounds):
+    # ------------------------------------------------------------------ partitions
+    def _find_part_locals(self):
+        """Locals whose (finite) value partitions the abstract state: user bool flags that only ever receive constants,
+        the return place when the body returns Option/Result/bool, and destinations of calls with variant summaries."""
+        b = self.b
+        parts = set()
+        out = b.rec.get("output", "") or ""
+        if out == "bool" or out.startswith(("std::option::Option<", "std::result::Result<", "core::option::Option<", "core::result::Result<")):
+            parts.add(0)
+        from mir import const_bool
+        cand = {}
+        for bi, blk in enumerate(b.blocks):
+            if blk["t"].get("cleanup"):
+                continue
+            for st in blk["s"]:
+                pl = st["p"]
+                if place_proj(pl):
+                    continue
+                l = pl["l"]
+                if b.locals[l] != "bool" or not b.local_name(l) or l <= b.nargs:
+                    continue
+                ok = st["rv"]["k"] == "use" and const_bool(st["rv"]["o"]) is not None
+                cand[l] = cand.get(l, True) and ok
+            t = blk["t"]
+            if t["k"] == "call" and not place_proj(t["dest"]):
+                l = t["dest"]["l"]
+                if l in cand:
+                    cand[l] = False
+                if self.engine is not None:
+                    callee = b.callee(t)
+                    if callee in self.F.heads and self.engine.has_variant_summary(callee):
+                        parts.add(l)
+        for l, ok in cand.items():
+            if ok and l not in self.untracked:
+                parts.add(l)
+        # flags whose address is taken are not partitioned
+        for bi, blk in enumerate(b.blocks):
+            for st in blk["s"]:
+                rv = st["rv"]
+                if rv["k"] in ("ref", "rawptr") and rv.get("mut") and rv["p"]["l"] in parts and rv["p"]["l"] != 0:
+                    parts.discard(rv["p"]["l"])
+        return parts
+
+    def _liveness(self, locs):
+        """live-in sets (restricted to locs) per block"""
         b = self.b
         n = len(b.blocks)
+        use = [set() for _ in range(n)]
+        dfn = [set() for _ in range(n)]
+
+        def ops_of_stmt(st):
+            out = []
+            for o in _rv_operands(st["rv"]):
+                q = op_place(o)
+                if q is not None:
+                    out.append(q["l"])
+            if st["rv"]["k"] in ("ref", "rawptr", "discr"):
+                out.append(st["rv"]["p"]["l"])
+            if place_proj(st["p"]):
+                out.append(st["p"]["l"])
+            return out
+        for bi, blk in enumerate(b.blocks):
+            for st in blk["s"]:
+                for l in ops_of_stmt(st):
+                    if l in locs and l not in dfn[bi]:
+                        use[bi].add(l)
+                if not place_proj(st["p"]) and st["p"]["l"] in locs:
+                    dfn[bi].add(st["p"]["l"])
+            t = blk["t"]
+            tl = []
+            for key in ("o", "cond"):
+                if key in t:
+                    q = op_place(t[key])
+                    if q is not None:
+                        tl.append(q["l"])
+            for o in t.get("args", []) + t.get("ops", []):
+                q = op_place(o)
+                if q is not None:
+                    tl.append(q["l"])
+            for l in tl:
+                if l in locs and l not in dfn[bi]:
+                    use[bi].add(l)
+            if t["k"] == "call" and not place_proj(t["dest"]) and t["dest"]["l"] in locs:
+                dfn[bi].add(t["dest"]["l"])
+            if t["k"] == "switch":
+                src = self._switch_source(bi, t["o"])
+                if src is not None and src[1] in locs and src[1] not in dfn[bi]:
+                    use[bi].add(src[1])
+            if t["k"] == "return" and 0 in locs and 0 not in dfn[bi]:
+                use[bi].add(0)
+        live = [set(u) for u in use]
+        changed = True
+        while changed:
+            changed = False
+            for bi in range(n - 1, -1, -1):
+                out = set()
+                for sx in b.succs(bi, unwind=False):
+                    out |= live[sx]
+                new = use[bi] | (out - dfn[bi])
+                if new != live[bi]:
+                    live[bi] = new
+                    changed = True
+        return live
+
+    def _key_stmt(self, key, st):
+        from mir import const_bool
+        pl = st["p"]
+        if place_proj(pl):
+            return key
+        l = pl["l"]
+        if l not in self.parts:
+            return key
+        rv = st["rv"]
+        val = None
+        if rv["k"] == "use":
+            cb = const_bool(rv["o"])
+            if cb is not None:
+                val = cb
+            else:
+                q = op_place(rv["o"])
+                if q is not None and not place_proj(q) and q["l"] in key:
+                    val = key[q["l"]]
+        elif rv["k"] == "agg" and rv.get("variant") is not None and rv.get("agg") == "adt":
+            val = rv["variant"]
+        key = dict(key)
+        if val is None:
+            key.pop(l, None)
+        else:
+            key[l] = val
+        return key
+
+    def _switch_source(self, bi, o):
+        """('local', l, negated) | ('discr', l) | ('eqsome', l, negated) for the operand of the switch ending block bi."""
+        b = self.b
+        p = op_place(o)
+        if p is None or place_proj(p):
+            return None
+        l = p["l"]
+        neg = False
+        ss = b.blocks[bi]["s"]
+        for _ in range(5):
+            if l in self.parts:
+                return ("local", l, neg)
+            found = None
+            for st in reversed(ss):
+                if not place_proj(st["p"]) and st["p"]["l"] == l:
+                    found = st["rv"]
+                    break
+            if found is None:
+                break
+            if found["k"] == "un" and found["op"] == "Not":
+                neg = not neg
+                q = op_place(found["a"])
+            elif found["k"] == "use":
+                q = op_place(found["o"])
+            elif found["k"] == "discr":
+                q = found["p"]
+                if not place_proj(q) and q["l"] in self.parts:
+                    return ("discr", q["l"])
+                return None
+            else:
+                return None
+            if q is None or place_proj(q):
+                return None
+            l = q["l"]
+        # bool produced by `Option == Some(..)` in the single predecessor
+        preds = b.preds(bi)
+        if len(preds) == 1:
+            pt = b.blocks[preds[0]]["t"]
+            if pt["k"] == "call" and not place_proj(pt["dest"]) and pt["dest"]["l"] == l:
+                qn = b.callee_q(pt) or ""
+                last = qn.rsplit("::", 1)[-1]
+                if last in ("eq", "ne") and len(pt["args"]) == 2 and self._is_option_operand(pt["args"][0]):
+                    if last == "ne":
+                        neg = not neg
+                    for x, y in ((pt["args"][0], pt["args"][1]), (pt["args"][1], pt["args"][0])):
+                        if self._is_some_const(y):
+                            src = self._ref_local(x)
+                            if src is not None and src in self.parts:
+                                return ("eqsome", src, neg)
+        return None
+
+    def _ref_local(self, o):
+        """local l when operand is `&l` (through single-def temps)"""
+        cur = o
+        for _ in range(5):
+            p = op_place(cur)
+            if p is None or place_proj(p):
+                return None
+            rv = self._single_def_rv(p["l"])
+            if rv is None:
+                return None
+            if rv["k"] == "ref" and not place_proj(rv["p"]):
+                return rv["p"]["l"]
+            if rv["k"] in ("use", "cast"):
+                cur = rv["o"]
+                continue
+            return None
+        return None
+
+    DISCR = {"0": {"Option": "None", "Result": "Ok"}, "1": {"Option": "Some", "Result": "Err"}}
+
+    def _variant_of_discr(self, l, val):
+        ty = self.b.locals[l]
+        if "option::Option<" in ty[:30]:
+            return self.DISCR.get(val, {}).get("Option")
+        if "result::Result<" in ty[:30]:
+            return self.DISCR.get(val, {}).get("Result")
+        return None
+
+    def pedges(self, bi, z, key):
+        """[(succ, zone, key)]"""
+        b = self.b
+        t = b.blocks[bi]["t"]
+        k = t["k"]
+        if k == "switch":
+            src = self._switch_source(bi, t["o"])
+            base = self.edges(bi, z)
+            if src is None:
+                return [(tg, zz, key) for tg, zz in base]
+            out = []
+            if src[0] in ("local", "eqsome") and t["ty"] == "bool":
+                zero = [x for v, x in t["targets"] if v == "0"]
+                f_t, t_t = (zero[0] if zero else None), t["otherwise"]
+                l, neg = src[1], src[2]
+                for tg, zz in base:
+                    # an edge can be both (same target) -- keep it unrefined then
+                    if tg == t_t and tg == f_t:
+                        out.append((tg, zz, key))
+                        continue
+                    truth = (tg == t_t) != neg
+                    if src[0] == "local":
+                        cur = key.get(l)
+                        if cur is not None and cur != truth:
+                            continue
+                        k2 = dict(key)
+                        k2[l] = truth
+                        out.append((tg, zz, k2))
+                    else:
+                        cur = key.get(l)
+                        if truth:
+                            if cur is not None and cur != "Some":
+                                continue
+                            k2 = dict(key)
+                            k2[l] = "Some"
+                            out.append((tg, zz, k2))
+                        else:
+                            out.append((tg, zz, key))
+                return out
+            if src[0] == "discr":
+                l = src[1]
+                cur = key.get(l)
+                listed = set()
+                for val, tg in t["targets"]:
+                    vn = self._variant_of_discr(l, val)
+                    listed.add(vn)
+                    if vn is None:
+                        return [(tg2, zz, key) for tg2, zz in base]
+                others = [v for v in ("None", "Some") if "option::Option<" in b.locals[l][:30]] or [v for v in ("Ok", "Err")]
+                rest = [v for v in others if v not in listed]
+                # base edges come in the order targets..., otherwise
+                res = []
+                bi_edges = list(base)
+                tv = [(self._variant_of_discr(l, val), tg) for val, tg in t["targets"]]
+                for tg, zz in bi_edges:
+                    vs = [vn for vn, tgx in tv if tgx == tg]
+                    if t.get("otherwise") == tg:
+                        vs = vs + rest
+                    vs = [v for v in vs if cur is None or cur == v]
+                    if not vs:
+                        continue
+                    k2 = dict(key)
+                    if len(vs) == 1:
+                        k2[l] = vs[0]
+                    res.append((tg, zz, k2))
+                return res
+            return [(tg, zz, key) for tg, zz in base]
+        if k == "call":
+            d = t["dest"]
+            key2 = key
+            if not place_proj(d) and d["l"] in key:
+                key2 = dict(key)
+                key2.pop(d["l"], None)
+            base = self.edges(bi, z)
+            if not base:
+                return []
+            tg, zz = base[0]
+            callee = b.callee(t)
+            summ = self.engine.summary(callee) if (self.engine is not None and callee in self.F.heads) else None
+            writer_call_ok = True
+            if summ:
+                amap = self._arg_places(t)
+                tags = [tagx for tagx in summ if tagx is not None]
+                if tags and not place_proj(d) and d["l"] in self.parts:
+                    out = []
+                    for tagx, cons in summ.items():
+                        z2 = zz.copy()
+                        self._apply_summary(z2, cons, amap, d)
+                        self._assume_after_call(z2, t)
+                        if z2.bottom:
+                            continue
+                        k2 = dict(key2)
+                        if tagx is not None:
+                            k2[d["l"]] = tagx
+                        out.append((tg, z2, k2))
+                    return out
+                # no variants: facts common to every return
+                common = summ.get(None) if set(summ) == {None} else _common(summ)
+                if common:
+                    self._apply_summary(zz, common, amap, d)
+            self._assume_after_call(zz, t)
+            return [] if zz.bottom else [(tg, zz, key2)]
+        return [(tg, zz, key) for tg, zz in self.edges(bi, z)]
+
+    def _arg_places(self, t):
+        """callee arg index (1-based) -> caller place the argument refers to (for reference arguments)"""
+        out = {}
+        for i, a in enumerate(t["args"], start=1):
+            p = op_place(a)
+            if p is None:
+                continue
+            if not place_proj(p) and p["l"] in self.mutborrow:
+                out[i] = self._resolve(self.mutborrow[p["l"]])
+                continue
+            c = self.container_of(a)
+            if c is not None:
+                out[i] = self._resolve(c)
+        return out
+
+    def _entails_spec(self, z, xs, ys, c, amap):
+        def term(spec):
+            if spec is None:
+                return ZERO
+            kind, ai, proj, uns = spec
+            root = amap.get(ai)
+            if root is None:
+                return None
+            pl = {"l": root["l"], "p": list(place_proj(root)) + list(proj)}
+            return self.len_term_of_place(pl) if kind == "len" else self.term_of_place(pl, "usize" if uns else None)
+        x, y = term(xs), term(ys)
+        if x is None or y is None:
+            return False
+        self._touch(z, x)
+        self._touch(z, y)
+        return z.entails(x, y, c)
+
+    def _apply_summary(self, z, cons, amap, dest):
+        """cons: [(xspec, yspec, c)] with spec = None (zero) | (kind, arg index | 0, projection list)"""
+        def term(spec):
+            if spec is None:
+                return ZERO
+            kind, ai, proj, uns = spec
+            if ai == 0:
+                if place_proj(dest):
+                    return None
+                pl = {"l": dest["l"], "p": list(proj)}
+            else:
+                root = amap.get(ai)
+                if root is None:
+                    return None
+                pl = {"l": root["l"], "p": list(place_proj(root)) + list(proj)}
+            if kind == "len":
+                return self.len_term_of_place(pl)
+            return self.term_of_place(pl, "usize" if uns else None)
+        for xs, ys, c in cons:
+            x, y = term(xs), term(ys)
+            if x is None or y is None:
+                continue
+            self._touch(z, x)
+            self._touch(z, y)
+            z.add(x, y, c)
+
+    # ------------------------------------------------------------------ struct invariants
+    def _inv_roots(self):
+        from effects import _pointee_adt
+        from facts import strip_generics
+        roots = []
+        if not self.inv:
+            return roots
+        b = self.b
+        for l in range(1, len(b.locals)):
+            ty = b.locals[l]
+            is_ref = ty.startswith("&")
+            adt = _pointee_adt(ty) if is_ref else (strip_generics(ty) if "::" in ty else None)
+            if adt not in self.inv:
+                continue
+            if is_ref and not (1 <= l <= b.nargs):
+                continue      # reference temps resolve to their roots
+            if not self._stable_base(l) and is_ref:
+                continue
+            roots.append((l, adt, {"l": l, "p": [["*"]]} if is_ref else {"l": l}))
+        return roots
+
+    def _inv_terms(self, root, adt, spec):
+        fx, kx, fy, ky, c = spec
+
+        def mk(f, kind):
+            pl = {"l": root["l"], "p": list(place_proj(root)) + [["f", -1, f, adt, None]]}
+            return self.len_term_of_place(pl) if kind == "len" else self.term_of_place(pl, "usize")
+        return mk(fx, kx), mk(fy, ky), c
+
+    def assume_invariants(self, z):
+        for l, adt, root in self.inv_roots:
+            if l in self.untracked:
+                continue
+            for spec in self.inv[adt]:
+                x, y, c = self._inv_terms(root, adt, spec)
+                if x is None or y is None:
+                    continue
+                self._touch(z, x)
+                self._touch(z, y)
+                z.add(x, y, c)
+
+    def check_invariants(self, z, only_local=None):
+        """[(adt, spec)] violated in z"""
+        bad = []
+        if z.bottom:
+            return bad
+        for l, adt, root in self.inv_roots:
+            if only_local is not None and l != only_local:
+                continue
+            for spec in self.inv[adt]:
+                x, y, c = self._inv_terms(root, adt, spec)
+                if x is None or y is None or not z.entails(x, y, c):
+                    bad.append((adt, spec, l))
+        return bad
+
+    def _passes_object(self, t):
+        """locals (inv roots) whose object is handed to the callee of call terminator t"""
+        out = set()
+        roots = {l: root for l, adt, root in self.inv_roots}
+        for a in t["args"]:
+            p = op_place(a)
+            if p is None:
+                continue
+            if not place_proj(p) and p["l"] in roots:
+                out.add(p["l"])
+                continue
+            tgt = None
+            if not place_proj(p) and p["l"] in self.mutborrow:
+                tgt = self._resolve(self.mutborrow[p["l"]])
+            else:
+                c = self.container_of(a)
+                if c is not None:
+                    tgt = self._resolve(c)
+            if tgt is not None and tgt["l"] in roots:
+                rs = self._raw_str(roots[tgt["l"]])
+                ts = self._raw_str(tgt) or ""
+                if ts == rs:
+                    out.add(tgt["l"])
+        return out
+
+    def _assume_after_call(self, z, t):
+        if not self.inv_roots:
+            return
+        if not self.is_inv_writer:
+            self.assume_invariants(z)
+            return
+        callee = self.b.callee(t)
+        if callee in self.F.heads and self._passes_object(t):
+            self.assume_invariants(z)
+
+    # ------------------------------------------------------------------ fixpoint
+    def _run(self, max_rounds):
+        b = self.b
         entry = Zone()
         for l in range(1, b.nargs + 1):
             if b.locals[l] in UNSIGNED:
                 name = self._register("_%d" % l, l, "_%d" % l, set(), True)
                 entry.add(ZERO, name, 0)
-        self.state_in = {0: entry}
+        self.inv_roots = self._inv_roots()
+        own = self.P.direct.get(b.path, {}) if self.P is not None else {}
+        self.is_inv_writer = any((adt, f) in own for adt, specs in self.inv.items() for sp in specs for f in (sp[0], sp[2]))
+        self.assume_invariants(entry)
+        pre = self.engine.pre.get(b.path) if self.engine is not None else None
+        if pre:
+            self._apply_summary(entry, pre, {i: {"l": i, "p": [["*"]]} for i in range(1, b.nargs + 1)}, {"l": 0})
+        self.parts = set()
+        self.parts = self._find_part_locals()
+        live = self._liveness(self.parts) if self.parts else None
+        self.pstate_in = {0: {(): entry}}
         visits = {}
         work = [0]
         inq = {0}
-        # loop heads: targets of back edges in a DFS order
         order = {}
         stack = [(0, iter(b.succs(0, unwind=False)))]
         order[0] = 0
@@ -1175,13 +1794,13 @@ class Analysis:
         while stack:
             x, it = stack[-1]
             adv = False
-            for s in it:
-                if s in onstack:
-                    heads.add(s)
-                elif s not in order:
-                    order[s] = len(order)
-                    onstack.add(s)
-                    stack.append((s, iter(b.succs(s, unwind=False))))
+            for sx in it:
+                if sx in onstack:
+                    heads.add(sx)
+                elif sx not in order:
+                    order[sx] = len(order)
+                    onstack.add(sx)
+                    stack.append((sx, iter(b.succs(sx, unwind=False))))
                     adv = True
                     break
             if not adv:
@@ -1189,44 +1808,130 @@ class Analysis:
                 stack.pop()
         self.heads = heads
         steps = 0
+        self.gave_up = False
         while work:
             work.sort(key=lambda x: -order.get(x, 0))
             bi = work.pop()
             inq.discard(bi)
             steps += 1
-            if steps > 40000:
+            if steps > 20000:
                 self.gave_up = True
                 break
-            z = self.state_in[bi].copy()
-            if bi in heads:
-                z.close()
-            for s in b.blocks[bi]["s"]:
-                self.stmt(z, s)
-            for tgt, zz in self.edges(bi, z):
-                old = self.state_in.get(tgt)
+            for tgt, zz, key in self._flow_block(bi, bi in heads):
+                if live is not None:
+                    key = {l: v for l, v in key.items() if l in live[tgt]}
+                kk = tuple(sorted(key.items(), key=lambda kv: kv[0]))
+                cur = self.pstate_in.setdefault(tgt, {})
+                if len(cur) >= 12 and kk not in cur:
+                    # too many partitions: fold everything that is not about the return place
+                    kk = tuple((l, v) for l, v in kk if l == 0)
+                    merged = {}
+                    for k0, z0 in cur.items():
+                        k1 = tuple((l, v) for l, v in k0 if l == 0)
+                        if k1 in merged:
+                            self._touch_both(merged[k1], z0)
+                            merged[k1] = join(merged[k1], z0)
+                        else:
+                            merged[k1] = z0
+                    self.pstate_in[tgt] = cur = merged
+                old = cur.get(kk)
                 if old is None:
-                    self.state_in[tgt] = zz
-                    new = True
+                    cur[kk] = zz
                 else:
                     self._touch_both(old, zz)
                     if zz.leq(old):
                         continue
                     j = join(old, zz)
                     if tgt in heads:
-                        visits[tgt] = visits.get(tgt, 0) + 1
-                        if visits[tgt] > 2:
+                        visits[(tgt, kk)] = visits.get((tgt, kk), 0) + 1
+                        if visits[(tgt, kk)] > 2:
                             j = widen(old, j)
-                    self.state_in[tgt] = j
+                    cur[kk] = j
                 if tgt not in inq:
                     inq.add(tgt)
                     work.append(tgt)
-        # final pass: states before terminators
-        for bi, zin in self.state_in.items():
+        # final pass: states before terminators, invariant obligations
+        self.inv_failures = []
+        self.pre_failures = []
+        for bi in list(self.pstate_in):
+            outs = []
+            for kk, zin in self.pstate_in[bi].items():
+                z = zin.copy()
+                z.close()
+                key = dict(kk)
+                for si, st in enumerate(b.blocks[bi]["s"]):
+                    self._check_agg_inv(z, bi, si, st)
+                    self.stmt(z, st)
+                    key = self._key_stmt(key, st)
+                outs.append((key, z))
+            self.state_at_term[bi] = outs
+            t = b.blocks[bi]["t"]
+            if t["k"] == "call" and self.engine is not None and b.callee(t) in self.engine.pre and not t.get("cleanup"):
+                amap = self._arg_places(t)
+                for key, z in outs:
+                    if z.bottom:
+                        continue
+                    for xs, ys, c in self.engine.pre[b.callee(t)]:
+                        ok = self._entails_spec(z, xs, ys, c, amap)
+                        if not ok:
+                            self.pre_failures.append((bi, b.callee(t), (xs, ys, c)))
+            if self.is_inv_writer and not t.get("cleanup"):
+                if t["k"] == "return":
+                    for key, z in outs:
+                        for adt, spec, l in self.check_invariants(z):
+                            if 1 <= l <= b.nargs:
+                                self.inv_failures.append((bi, "return", adt, spec))
+                elif t["k"] == "call" and b.callee(t) in self.F.heads:
+                    po = self._passes_object(t)
+                    for l in po:
+                        for key, z in outs:
+                            for adt, spec, _ in self.check_invariants(z, only_local=l):
+                                self.inv_failures.append((bi, "call " + (b.callee_q(t) or "?").rsplit("::", 1)[-1], adt, spec))
+
+    def _check_agg_inv(self, z, bi, si, st):
+        rv = st["rv"]
+        if rv["k"] != "agg" or rv.get("agg") != "adt" or rv.get("adt") not in self.inv or z.bottom:
+            return
+        adt = rv["adt"]
+        fields = rv.get("fields") or []
+        ops = dict(zip(fields, rv["ops"]))
+        for spec in self.inv[adt]:
+            fx, kx, fy, ky, c = spec
+
+            def val(f, kind):
+                o = ops.get(f)
+                if o is None:
+                    return None
+                if kind == "len":
+                    p = op_place(o)
+                    if p is None:
+                        return None
+                    t = self.len_term_of_place(p)
+                    if t:
+                        self._touch(z, t)
+                    return (t, 0) if t else None
+                return self.lin(z, o, "usize")
+            x, y = val(fx, kx), val(fy, ky)
+            if x is None or y is None or not z.entails(x[0], y[0], c - x[1] + y[1]):
+                self.inv_failures.append((bi, "construction", adt, spec))
+
+    def _flow_block(self, bi, is_head):
+        b = self.b
+        out = []
+        for kk, zin in list(self.pstate_in[bi].items()):
             z = zin.copy()
-            z.close()
-            for s in b.blocks[bi]["s"]:
-                self.stmt(z, s)
-            self.state_at_term[bi] = z
+            if is_head:
+                z.close()
+            key = dict(kk)
+            for st in b.blocks[bi]["s"]:
+                self.stmt(z, st)
+                key = self._key_stmt(key, st)
+            out.extend(self.pedges(bi, z, key))
+        return out
+
+    def states_at(self, bi):
+        """[(partition key, zone)] before the terminator of bi; None if the block is unreachable."""
+        return self.state_at_term.get(bi)
 
     def _touch_both(self, a, c):
         if a.bottom or c.bottom:
@@ -1236,21 +1941,136 @@ class Analysis:
                 self._touch(a, v)
                 self._touch(c, v)
 
-    # ------------------------------------------------------------------ queries
-    def query_le(self, bi, x, y, c):
-        """Is  x - y <= c  (x, y operands or term names) known before the terminator of block bi?"""
-        z = self.state_at_term.get(bi)
-        if z is None:
-            return True    # unreachable block
-        if z.bottom:
-            return True
-        return z.entails(x, y, c)
+    # ------------------------------------------------------------------ summaries
+    def export_summary(self):
+        """{tag: [(xspec, yspec, c)]}: constraints over memory reached through the arguments (and fields of the returned
+        value) that hold whenever the body returns with `_0` built as variant `tag` (None: any / unknown variant)."""
+        b = self.b
+        per_tag = {}
+        for bi, outs in self.state_at_term.items():
+            t = b.blocks[bi]["t"]
+            if t["k"] != "return" or t.get("cleanup"):
+                continue
+            for key, z in outs:
+                if z.bottom:
+                    continue
+                tag = key.get(0)
+                if tag in per_tag:
+                    self._touch_both(per_tag[tag], z)
+                    per_tag[tag] = join(per_tag[tag], z)
+                else:
+                    per_tag[tag] = z.copy()
+        out = {}
+        for tag, z in per_tag.items():
+            specs = {}
+            for name, i in self.info.items():
+                base = i["base"]
+                pl = i.get("place")
+                if pl is None:
+                    continue
+                if base == 0 and name.startswith("m:"):
+                    specs[name] = ("m", 0, list(place_proj(pl)), i["unsigned"])
+                elif 1 <= base <= b.nargs and self._ndefs.get(base, 0) == 0 and place_proj(pl) and place_proj(pl)[0][0] == "*":
+                    kind = "len" if name.startswith("len:") else ("m" if name.startswith("m:") else None)
+                    if kind is None:
+                        continue
+                    specs[name] = (kind, base, list(place_proj(pl))[1:], i["unsigned"])
+            cons = []
+            names = set(specs) | {ZERO}
+            for x, r in z.row.items():
+                if x not in names:
+                    continue
+                for y, c in r.items():
+                    if y not in names:
+                        continue
+                    if x == ZERO and specs.get(y, (0, 0, 0, False))[3] and c >= 0:
+                        continue     # 0 <= unsigned term: implicit
+                    cons.append((specs.get(x), specs.get(y), c))
+            out[tag] = cons
+        return out
 
-    def operand_lin(self, bi, o, ty=None):
-        z = self.state_at_term.get(bi)
-        if z is None:
+
+def _common(summ):
+    """constraints present (at least as strong) in every tag's list"""
+    lists = list(summ.values())
+    if not lists:
+        return []
+    first = lists[0]
+    out = []
+    for (x, y, c) in first:
+        cmax = c
+        ok = True
+        for other in lists[1:]:
+            m = [c2 for (x2, y2, c2) in other if _spec_eq(x2, x) and _spec_eq(y2, y)]
+            if not m:
+                ok = False
+                break
+            cmax = max(cmax, min(m))
+        if ok:
+            out.append((x, y, cmax))
+    return out
+
+
+def _spec_eq(a, c):
+    if a is None or c is None:
+        return a is None and c is None
+    return a[0] == c[0] and a[1] == c[1] and a[2] == c[2]
+
+
+class Engine:
+    """Caches per-body analyses and callee summaries for one facts set."""
+
+    def __init__(self, facts, program, len_alias=None, invariants=None, max_blocks=1500, preconditions=None):
+        self.pre = preconditions or {}     # callee path -> [(xspec, yspec, c)] assumed at entry, checked at every call site
+        self.F = facts
+        self.P = program
+        self.len_alias = len_alias or {}
+        self.inv = invariants or {}
+        self.cache = {}
+        self.summ = {}
+        self.busy = set()
+        self.max_blocks = max_blocks
+
+    def analysis(self, path):
+        a = self.cache.get(path)
+        if a is None:
+            b = self.F.body(path)
+            self.busy.add(path)
+            try:
+                a = Analysis(b, self.P, self.F, self.len_alias, engine=self, invariants=self.inv)
+            finally:
+                self.busy.discard(path)
+            self.cache[path] = a
+        return a
+
+    def _summarizable(self, path):
+        h = self.F.heads.get(path)
+        if h is None or h.get("bkind") not in ("fn",):
+            return False
+        return True
+
+    def summary(self, path):
+        if path in self.summ:
+            return self.summ[path]
+        if path in self.busy or not self._summarizable(path):
             return None
-        return self.lin(z, o, ty)
+        b = self.F.body(path)
+        if b is None or len(b.blocks) > self.max_blocks:
+            self.summ[path] = None
+            return None
+        a = self.analysis(path)
+        if a.gave_up:
+            self.summ[path] = None
+            return None
+        sm = a.export_summary()
+        if not any(sm.values()):
+            sm = None
+        self.summ[path] = sm
+        return sm
+
+    def has_variant_summary(self, path):
+        sm = self.summary(path)
+        return bool(sm) and any(tag is not None for tag in sm)
 
 
 def divisor_of_assert(b, bi):
